@@ -1,6 +1,6 @@
 """C23 — The B+ tree is a correct versioned ordered map.
 spec/VersionedTree.tla (Impl = "bptree"): (M) exhaustive on 3 keys, (R) every edge of the bounded
-graph, every read on every small map, and simulated long behaviours over 6 / 90 / 700 / 1300 keys
+graph, every read on every small map, and simulated long behaviours over 6 / 90 / 700 / 1300 / 1500 keys
 (leaf and inner-node splits, redistribution, merges, root collapse of the B = 32 tree) replayed on
 the real bptree.MutableTree over memdb and goleveldb, with every cache size / fast-index setting."""
 import os, sys
@@ -28,7 +28,7 @@ def run(ctx):
     quick = ctx.tier == "quick"
     ecfg, rcfg, xcfg = ("VersionedTree_qe.cfg", "VersionedTree_qr.cfg", "VersionedTree_q.cfg") if quick else \
                        ("VersionedTree_te.cfg", "VersionedTree_tr.cfg", "VersionedTree_t.cfg")
-    n_s, n_m, n_l, n_x = (60, 24, 0, 8) if quick else (2000, 400, 160, 120)
+    n_s, n_m, n_l, n_x, n_y = (60, 24, 0, 0, 8) if quick else (2000, 400, 160, 120, 160)
     procs = 1 if quick else 6
     jobs = [
         lambda: R.tlc(ecfg, "exhaustive+edges 3 keys " + ecfg, tags=("EDGE",), timeout=3000, workers=6),
@@ -37,12 +37,15 @@ def run(ctx):
         lambda: R.sims("VersionedTree_sims.cfg", "simulate 6 keys, 5 versions, 2 snapshots, depth 40", n_s, 45, procs=min(procs, 3), timeout=3000),
         lambda: R.sims("VersionedTree_simm.cfg", "simulate 90 keys, depth 50", n_m, 55, procs=procs, timeout=3000),
         lambda: R.sims("VersionedTree_sim.cfg", "simulate 700 keys, 8 versions, depth 50", n_l, 55, procs=8, timeout=3000) if n_l else [],
-        lambda: R.sims("VersionedTree_simx.cfg", "simulate 1300 keys (tree height 2: inner-node splits / merges), depth 50", n_x, 55, procs=2 if quick else 8, timeout=3000),
+        lambda: R.sims("VersionedTree_simx.cfg", "simulate 1300 keys (tree height 2: inner-node splits / merges), depth 50", n_x, 55, procs=8, timeout=3000) if n_x else [],
+        # shape simulation: cycles of clear / full fill / trim every leaf to the minimum / one key out of every leaf, so that
+        # inner nodes underflow next to siblings with unequal children (borrow from the right / left inner sibling, inner merges)
+        lambda: R.sims("VersionedTree_simy.cfg", "shape simulation 1500 keys (three levels; inner-node borrow / merge), depth 35", n_y, 40, procs=2 if quick else 8, timeout=3000),
     ]
     rs = vt.parallel(jobs)
-    edges, redges, sims_s, sims_m, sims_l, sims_x = rs[0].traces, rs[1].traces, rs[3], rs[4], rs[5], rs[6]
+    edges, redges, sims_s, sims_m, sims_l, sims_x, sims_y = rs[0].traces, rs[1].traces, rs[3], rs[4], rs[5], rs[6], rs[7]
     ctx.cov["edges_emitted"] = len(edges) + len(redges)
-    ctx.log("TLC done: %d + %d edges, %d + %d + %d + %d simulated behaviours" % (len(edges), len(redges), len(sims_s), len(sims_m), len(sims_l), len(sims_x)))
+    ctx.log("TLC done: %d + %d edges, %d + %d + %d + %d + %d simulated behaviours" % (len(edges), len(redges), len(sims_s), len(sims_m), len(sims_l), len(sims_x), len(sims_y)))
     # every proper prefix of an edge behaviour is an edge behaviour of its own: the full projection
     # (all reads of the working tree and of every retained version) is compared on the last step,
     # replies on every step
@@ -50,9 +53,12 @@ def run(ctx):
         lambda: R.drive(ecfg, edges, EDGE_VARIANTS, checklast=1),
         lambda: R.drive(rcfg, redges, EDGE_VARIANTS[:1], checklast=1),
         lambda: R.drive("VersionedTree_sims.cfg", sims_s, SIM_VARIANTS),
-        lambda: R.drive("VersionedTree_simm.cfg", sims_m, SIM_VARIANTS),
-        lambda: R.drive("VersionedTree_sim.cfg", sims_l, SIM_VARIANTS),
-        lambda: R.drive("VersionedTree_simx.cfg", sims_x, SIM_VARIANTS),
+        # large trees: GetByIndex / GetWithIndex on every 3rd..7th key and index, and on every key within 40 of the span
+        # the last write worked on (working tree every step; every retained version and open snapshot on version steps)
+        lambda: R.drive("VersionedTree_simm.cfg", sims_m, SIM_VARIANTS, denseidx=True),
+        lambda: R.drive("VersionedTree_sim.cfg", sims_l, SIM_VARIANTS, denseidx=True),
+        lambda: R.drive("VersionedTree_simx.cfg", sims_x, SIM_VARIANTS, denseidx=True),
+        lambda: R.drive("VersionedTree_simy.cfg", sims_y, SIM_VARIANTS, denseidx=True),
     ])
     R.finish()
     ctx.cov["exhaustive"] = True
